@@ -4,7 +4,7 @@ import json, os
 
 CLAIMS = {
  "C12": {
-  "text": "Decides: source routing of the access ops (ThisAddress / ThisContractAddress read the predicate / contract field of this_solution(); PredicateData* read this_solution().predicate_data; PredicateExists receives the whole set); checked range resolution (usize::try_from, checked_add, slice.get only, the popped words feed (value_ix, len) in the documented order); sibling encodings agree (the VM's and essential-sign's 33-byte public-key encodings have the same structure, recover pops id / 8 / 4 words and rebuilds the compact signature and digest, the 9-word signature layout); every SHA-256 user is new/update(input)/finalize; the PredicateExists pre-image order (len-prefixed slots, contract, predicate, big-endian bytes); five zero words on an unrecoverable signature. Partial claim: byte-length marshalling (pop_bytes rounding/truncation) and cryptographic answers are not decided. Also decided: byte operands (ceil(len/8) words, big-endian bytes in stack order, cut to len), VerifyEd25519 pop order / verify(key, data, signature) / pushed bit, and that every result of the range resolver is the checked sub-slice. The sign crate recovers a key exactly where secp256k1 does (acceptance tables), so the op and essential_sign agree on which signatures yield a key. pop_words hands over the top n words in stack order and removes them. predicate_data fails only where a pop, the range, the lookup or the push fails; the 9th signature word is exactly the recovery id. The checker builds each node's Access from all solutions of the set and the solution index.",
+  "text": "Decides: source routing of the access ops (ThisAddress / ThisContractAddress read the predicate / contract field of this_solution(); PredicateData* read this_solution().predicate_data; PredicateExists receives the whole set); checked range resolution (usize::try_from, checked_add, slice.get only, the popped words feed (value_ix, len) in the documented order); sibling encodings agree (the VM's and essential-sign's 33-byte public-key encodings have the same structure, recover pops id / 8 / 4 words and rebuilds the compact signature and digest, the 9-word signature layout); every SHA-256 user is new/update(input)/finalize; the PredicateExists pre-image order (len-prefixed slots, contract, predicate, big-endian bytes); five zero words on an unrecoverable signature. Partial claim: byte-length marshalling (pop_bytes rounding/truncation) and cryptographic answers are not decided. Also decided: byte operands (ceil(len/8) words, big-endian bytes in stack order, cut to len), VerifyEd25519 pop order / verify(key, data, signature) / pushed bit, and that every result of the range resolver is the checked sub-slice. The sign crate recovers a key exactly where secp256k1 does (acceptance tables), so the op and essential_sign agree on which signatures yield a key. pop_words hands over the top n words in stack order and removes them. predicate_data fails only where a pop, the range, the lookup or the push fails; the 9th signature word is exactly the recovery id. The checker builds each node's Access from all solutions of the set and the solution index. hash_bytes is SHA-256 of its argument for every input (no special case).",
   "note": "Trusted: sha2, secp256k1, ed25519-dalek.",
   "technique": "static analysis: provenance of call arguments against expected source fields, structural comparison of sibling encoders, call-sequence whitelists",
   "design_ref": "3/C12",
@@ -16,7 +16,7 @@ CLAIMS = {
   "design_ref": "3/C14",
  },
  "C18": {
-  "text": "Partial claim: round-trip equality over all values is value-level and NOT decided. Decided necessary conditions: big-endian pair and identity layouts of the four fixed-width converters and of Signature <-> [u8; 65]; every serde serializer/deserializer pair branches on is_human_readable with the same polarity and the same family (hex / sequence) on each side; predicate and mutation encoders, size helpers and decoders agree on offsets (linear forms), the list codec writes/reads the count first and advances by encode_size; node_edges is empty exactly for edge_start == MAX and otherwise a checked sub-range; the legacy field names (data, decision_variables) reach the same fields as the current names and only current names are written; Display/FromStr use encode_upper/decode with the same array length. Also decided: derived binary framing (every struct field written unconditionally in order; visit_seq reads one element per field in that order) and that list decoders stop exactly at the end of input. The predicate decoder returns only after reading all four parts; human-readable deserializers accept owned input. words <-> hex text both go through bytes_from_word / word_from_bytes and the hex crate. Predicate::{encode,decode,encoded_size} forward their argument unchanged to the codec functions. The single-mutation reader rejects exactly the five malformed shapes (a key or value of length 0 is accepted).",
+  "text": "Partial claim: round-trip equality over all values is value-level and NOT decided. Decided necessary conditions: big-endian pair and identity layouts of the four fixed-width converters and of Signature <-> [u8; 65]; every serde serializer/deserializer pair branches on is_human_readable with the same polarity and the same family (hex / sequence) on each side; predicate and mutation encoders, size helpers and decoders agree on offsets (linear forms), the list codec writes/reads the count first and advances by encode_size; node_edges is empty exactly for edge_start == MAX and otherwise a checked sub-range; the legacy field names (data, decision_variables) reach the same fields as the current names and only current names are written; Display/FromStr use encode_upper/decode with the same array length. Also decided: derived binary framing (every struct field written unconditionally in order; visit_seq reads one element per field in that order) and that list decoders stop exactly at the end of input. The predicate decoder returns only after reading all four parts; human-readable deserializers accept owned input. words <-> hex text both go through bytes_from_word / word_from_bytes and the hex crate. Predicate::{encode,decode,encoded_size} forward their argument unchanged to the codec functions. The single-mutation reader rejects exactly the five malformed shapes (a key or value of length 0 is accepted). Display of ContentAddress / Signature is one upper-hex string of the whole value; the predicate decoder collects n nodes and m edges.",
   "note": "Trusted: hex, serde, postcard. Breaking any decided clause breaks a round trip; the converse is not claimed.",
   "technique": "static analysis: aggregate-element provenance (layouts), path-condition polarity pairing, symbolic linear forms of offsets, string-literal to field tables of derive-generated visitors",
   "design_ref": "3/C18",
@@ -28,7 +28,7 @@ CLAIMS = {
   "design_ref": "3/C19",
  },
  "C01": {
-  "text": "Partial claim. The behavioural equivalence with the graph reference semantics (exactly-once execution, numbering independence, concatenation order, gas/data-output equality) is NOT decided by static analysis. Decided clauses: graph validation (parent map, level order) dominates every site that can start a node program; an empty level while nodes remain (cycle) and invalid edge ranges are errors; every edge value used as a node index is compared with nodes.len(); the leaf interpretation table is exactly [1] -> satisfied, [2] -> data output of vm.memory, anything else -> unsatisfied, with leaf = node without edges and parents exporting (stack, memory); parent inputs are taken from the parent map in ascending order and each node runs the program of its own address. Deferral closure and the run-mode split are decided under C03. Also decided: the level-order bookkeeping per edge (in-degree = entries of the parent list, one decrement per edge of a finished parent, removal after scheduling), and that per-solution data (cross-pass cache, predicate, index, outputs, computed mutations) stays with its solution by index. The node-output maps only grow during the level loop; node_edges answers None for malformed ranges (table). Stack / Memory built from concatenated parent results are accepted exactly up to the VM limits; deferral is decided exactly (C15-R2/R3, C03-R3 re-evaluated). The deferred set is closed under descendants and the Effects flags are distinct single bits (C03-R5, C15-R1 re-evaluated). The verdict of one graph is Ok only after every level ran and nothing failed or was unsatisfied (return table); each parent output is taken from the cross-pass cache first and from this pass's cache otherwise, at both start sites; every node's VM is given the whole set and the index of the solution being checked.",
+  "text": "Partial claim. The behavioural equivalence with the graph reference semantics (exactly-once execution, numbering independence, concatenation order, gas/data-output equality) is NOT decided by static analysis. Decided clauses: graph validation (parent map, level order) dominates every site that can start a node program; an empty level while nodes remain (cycle) and invalid edge ranges are errors; every edge value used as a node index is compared with nodes.len(); the leaf interpretation table is exactly [1] -> satisfied, [2] -> data output of vm.memory, anything else -> unsatisfied, with leaf = node without edges and parents exporting (stack, memory); parent inputs are taken from the parent map in ascending order and each node runs the program of its own address. Deferral closure and the run-mode split are decided under C03. Also decided: the level-order bookkeeping per edge (in-degree = entries of the parent list, one decrement per edge of a finished parent, removal after scheduling), and that per-solution data (cross-pass cache, predicate, index, outputs, computed mutations) stays with its solution by index. The node-output maps only grow during the level loop; node_edges answers None for malformed ranges (table). Stack / Memory built from concatenated parent results are accepted exactly up to the VM limits; deferral is decided exactly (C15-R2/R3, C03-R3 re-evaluated). The deferred set is closed under descendants and the Effects flags are distinct single bits (C03-R5, C15-R1 re-evaluated). The verdict of one graph is Ok only after every level ran and nothing failed or was unsatisfied (return table); each parent output is taken from the cross-pass cache first and from this pass's cache otherwise, at both start sites; every node's VM is given the whole set and the index of the solution being checked. The gas of a graph counts every executed node once (C07-R5 re-evaluated).",
   "note": "These are necessary conditions of the property; breaking any of them changes verdicts. The sufficient direction is out of reach for this technique family.",
   "technique": "static analysis: dominance of validation over execution sites, return tables of the graph functions, match table of the leaf interpretation",
   "design_ref": "3/C01",
@@ -70,25 +70,25 @@ CLAIMS = {
   "design_ref": "3/C15",
  },
  "C17": {
-  "text": "Decides: sort-before-hash on the very slice hashed for contracts (salt last) and sets; delegation agreement of all address entry points per type down to one SHA-256 leaf with unmodified arguments; SHA-256 users are new/update(input)/finalize; encoder, size helper and decoder agree on the predicate layout - widths are read off the encoder's iterator chain and closures, the size helper's linear form must equal them, the decoder's four ranges must be 0..2, 2..2+34n, 2+34n..4+34n, 4+34n..4+34n+2m; every variable-length part is length-prefixed with constant widths (injectivity skeleton). Partial claim: injectivity of postcard and SHA-256 collision resistance are trusted. Also decided: the serde pre-hash encoding is positional and complete (every declared field written unconditionally in declaration order). The Predicate address is the hash of the encoding exactly when the predicate is encodable; the predicate decoder returns only after reading all four parts. The comparisons used for canonicalisation are the derived structural PartialEq/Eq/Ord/Hash. Predicate::{encode,decode,encoded_size} forward their argument unchanged to the codec functions.",
+  "text": "Decides: sort-before-hash on the very slice hashed for contracts (salt last) and sets; delegation agreement of all address entry points per type down to one SHA-256 leaf with unmodified arguments; SHA-256 users are new/update(input)/finalize; encoder, size helper and decoder agree on the predicate layout - widths are read off the encoder's iterator chain and closures, the size helper's linear form must equal them, the decoder's four ranges must be 0..2, 2..2+34n, 2+34n..4+34n, 4+34n..4+34n+2m; every variable-length part is length-prefixed with constant widths (injectivity skeleton). Partial claim: injectivity of postcard and SHA-256 collision resistance are trusted. Also decided: the serde pre-hash encoding is positional and complete (every declared field written unconditionally in declaration order). The Predicate address is the hash of the encoding exactly when the predicate is encodable; the predicate decoder returns only after reading all four parts. The comparisons used for canonicalisation are the derived structural PartialEq/Eq/Ord/Hash. Predicate::{encode,decode,encoded_size} forward their argument unchanged to the codec functions. hash_bytes is SHA-256 of its argument for every input; the decoder collects n nodes and m edges.",
   "note": "Trusted: sha2, postcard, slice::sort, derived Ord of ContentAddress.",
   "technique": "static analysis: dominance, call-graph delegation table, symbolic linear forms over MIR arithmetic compared between encoder, size helper and decoder",
   "design_ref": "3/C17",
  },
  "C03": {
-  "text": "Decides the structural clauses that make post-state reads see pre-state + all of the set's mutations: the pre/post x own/extern routing table (derived from variant names), that the first pass runs with an empty post view, that the insert loop covers every solution and mutation of the set returned by the first pass keyed by (contract, key), that the second pass is dominated by the first and given the built view, that the view forwards requests unchanged and delegates to the pre-state where nothing is proposed, that the deferral mask contains every Post* flag, the run-mode split, and that deferral is closed under descendants (fixed point). Partial claim: the overlay arithmetic is not decided. Also decided: the per-key overlay loop (a mutated key yields the mutation's value, any other key one value read from the pre-state at the same key; key advanced by next_key once per value; loop ends at num_values or the last key) and next_key's carry table. The Effects flags are distinct single bits (C15-R1 re-evaluated). Second-pass nodes receive their first-pass parents' outputs (C01-R4), and the set the overlay is built from keeps every declared mutation (only `push` on state_mutations).",
+  "text": "Decides the structural clauses that make post-state reads see pre-state + all of the set's mutations: the pre/post x own/extern routing table (derived from variant names), that the first pass runs with an empty post view, that the insert loop covers every solution and mutation of the set returned by the first pass keyed by (contract, key), that the second pass is dominated by the first and given the built view, that the view forwards requests unchanged and delegates to the pre-state where nothing is proposed, that the deferral mask contains every Post* flag, the run-mode split, and that deferral is closed under descendants (fixed point). Partial claim: the overlay arithmetic is not decided. Also decided: the per-key overlay loop (a mutated key yields the mutation's value, any other key one value read from the pre-state at the same key; key advanced by next_key once per value; loop ends at num_values or the last key) and next_key's carry table. The Effects flags are distinct single bits (C15-R1 re-evaluated). Second-pass nodes receive their first-pass parents' outputs (C01-R4), and the set the overlay is built from keeps every declared mutation (only `push` on state_mutations). The post view answers only through the overlay helper (return table); the list decoder that feeds computed mutations into the overlay reads up to the end of its input (C18-R3 re-evaluated).",
   "note": "Depends on C15 (exactness of the byte scan). Value-level clauses (next_key carry, straddling ranges, deletion) are not decided.",
   "technique": "static analysis: MIR match tables, provenance of call arguments, dominance between passes, natural-loop structure (fixed-point detection)",
   "design_ref": "3/C03",
  },
  "C11": {
-  "text": "Decides routing (view x contract) for the four key-range ops, that key and count handed to the state are exactly the popped components and the external address is the 4 popped words, that state errors are wrapped unchanged, that the module never grows memory and only pops the stack, and the layout skeleton of the writer (pair area of 2*len, [addr,len] store then value store per value, cursors advancing by 2 and len). Partial claim: the popping order on all stacks and over/under-delivery by the state are not decided. The operand readers fail only when a pop or the usize conversion fails. write_values_to_memory fails only where a conversion, the address sum or a store fails.",
+  "text": "Decides routing (view x contract) for the four key-range ops, that key and count handed to the state are exactly the popped components and the external address is the 4 popped words, that state errors are wrapped unchanged, that the module never grows memory and only pops the stack, and the layout skeleton of the writer (pair area of 2*len, [addr,len] store then value store per value, cursors advancing by 2 and len). Partial claim: the popping order on all stacks and over/under-delivery by the state are not decided. The operand readers fail only when a pop or the usize conversion fails. write_values_to_memory fails only where a conversion, the address sum or a store fails. The post view answers through the overlay helper and propagates state errors; the deferral scan is exact (C03-R2/R7, C15-R2/R3 re-evaluated).",
   "note": "Bounds of the stores are C05 (store_range is bounds-checked).",
   "technique": "static analysis: MIR match tables, provenance of call arguments, callee whitelists per module (frame rule), loop/def-use structure of the writer",
   "design_ref": "3/C11",
  },
  "C07": {
-  "text": "Decides the structural clauses of gas accounting on every path of Vm::exec: the op-executing call is dominated by success of checked_add(total, op_gas_cost(op)) filtered by `sum <= gas_limit.total` for the very op it executes (so an op that would exceed the limit has no effect); every definition of the running total is 0 or the payload of such a checked, limit-filtered sum, including the gas joined from compute children; no unchecked u64 arithmetic exists in essential-vm / essential-check; the checker sums with saturating_add. Partial claim: the value statement `reported gas = sum of executed costs` is decided only as this structure. Also decided: Iterator::sum/product over u64 counts as raw arithmetic; the limit captured by the compute closure is resolved to the operand the parent passes (its own parameter, or a rebuilt limit whose total derives from it); inside the arm of each node kind no path leaves without adding the node's gas. The compute gas is joined on every path through the ComputeResult arm of Vm::exec. Raw u64 operators on references (as in derive-generated Display arguments) count as raw gas arithmetic. The joined compute gas is the sum over all children (C10-R4 re-evaluated).",
+  "text": "Decides the structural clauses of gas accounting on every path of Vm::exec: the op-executing call is dominated by success of checked_add(total, op_gas_cost(op)) filtered by `sum <= gas_limit.total` for the very op it executes (so an op that would exceed the limit has no effect); every definition of the running total is 0 or the payload of such a checked, limit-filtered sum, including the gas joined from compute children; no unchecked u64 arithmetic exists in essential-vm / essential-check; the checker sums with saturating_add. Partial claim: the value statement `reported gas = sum of executed costs` is decided only as this structure. Also decided: Iterator::sum/product over u64 counts as raw arithmetic; the limit captured by the compute closure is resolved to the operand the parent passes (its own parameter, or a rebuilt limit whose total derives from it); inside the arm of each node kind no path leaves without adding the node's gas. The compute gas is joined on every path through the ComputeResult arm of Vm::exec. Raw u64 operators on references (as in derive-generated Display arguments) count as raw gas arithmetic. The joined compute gas is the sum over all children (C10-R4 re-evaluated). The public entry points hand Vm::exec the caller's limit unchanged (C14-R2 re-evaluated).",
   "note": "Assumes OpGasCost is a pure function. Observation K1 (children each receive the full limit) is documented, not claimed as a violation. Termination follows informally from R1 with positive costs.",
   "technique": "static analysis: MIR dominance (check-before-use), def-use enumeration of the gas accumulator, operator/type scan for unchecked u64 arithmetic",
   "design_ref": "3/C07",
